@@ -5,39 +5,44 @@ From Brc.Model Require Import Base Table Engine.
 From Brc.Proofs Require Import EngineP.
 From BrcGen Require Import Consts.
 
-Notation step := (e_step W MAX_FUTURE_TRANSACTION_NONCES MAX_FUTURE_TRANSACTION_BLOCKS).
+Notation step := (e_step W MAX_FUTURE_TRANSACTION_NONCES MAX_FUTURE_TRANSACTION_BLOCKS INDEXER_ADDRESS).
 
 Theorem C05_reject_no_effect :
   forall g c, snd (step g c) = ORejected -> fst (step g c) = g.
-Proof. exact (reject_no_effect W MAX_FUTURE_TRANSACTION_NONCES MAX_FUTURE_TRANSACTION_BLOCKS). Qed.
+Proof. exact (reject_no_effect W MAX_FUTURE_TRANSACTION_NONCES MAX_FUTURE_TRANSACTION_BLOCKS INDEXER_ADDRESS). Qed.
 Print Assumptions C05_reject_no_effect.
 
 Theorem C05_wrong_tx_idx_rejected :
   forall g a idx ts h v, idx <> g_wait g -> snd (step g (CTx a idx ts h v)) = ORejected.
-Proof. exact (wrong_tx_idx_rejected W MAX_FUTURE_TRANSACTION_NONCES MAX_FUTURE_TRANSACTION_BLOCKS). Qed.
+Proof. exact (wrong_tx_idx_rejected W MAX_FUTURE_TRANSACTION_NONCES MAX_FUTURE_TRANSACTION_BLOCKS INDEXER_ADDRESS). Qed.
 
 Theorem C05_midblock_timestamp_or_hash_mismatch_rejected :
   forall g a idx ts h v,
     g_wait g <> 0 -> (ts <> g_ts g \/ resolve_hash h (next_h g) <> g_hash g) ->
     snd (step g (CTx a idx ts h v)) = ORejected.
-Proof. exact (midblock_mismatch_rejected W MAX_FUTURE_TRANSACTION_NONCES MAX_FUTURE_TRANSACTION_BLOCKS). Qed.
+Proof. exact (midblock_mismatch_rejected W MAX_FUTURE_TRANSACTION_NONCES MAX_FUTURE_TRANSACTION_BLOCKS INDEXER_ADDRESS). Qed.
 
 Theorem C05_finalise_wrong_count_rejected :
   forall g ts h cnt, cnt <> g_wait g -> snd (step g (CFinalise ts h cnt)) = ORejected.
-Proof. exact (finalise_wrong_count_rejected W MAX_FUTURE_TRANSACTION_NONCES MAX_FUTURE_TRANSACTION_BLOCKS). Qed.
+Proof. exact (finalise_wrong_count_rejected W MAX_FUTURE_TRANSACTION_NONCES MAX_FUTURE_TRANSACTION_BLOCKS INDEXER_ADDRESS). Qed.
 
 Theorem C05_existing_hash_rejected :
   forall g a idx ts h v,
     hash_exists g (resolve_hash h (next_h g)) = true -> snd (step g (CTx a idx ts h v)) = ORejected.
-Proof. exact (existing_hash_rejected W MAX_FUTURE_TRANSACTION_NONCES MAX_FUTURE_TRANSACTION_BLOCKS). Qed.
+Proof. exact (existing_hash_rejected W MAX_FUTURE_TRANSACTION_NONCES MAX_FUTURE_TRANSACTION_BLOCKS INDEXER_ADDRESS). Qed.
 
 Theorem C05_open_block_refuses_commit_reorg_mine :
   forall g, g_wait g <> 0 \/ g_dirty g = true ->
     snd (step g CCommit) = ORejected /\
     (forall n nn pl, snd (step g (CReorg n nn pl)) = ORejected) /\
     (forall c ts, snd (step g (CMine c ts)) = ORejected).
-Proof. exact (open_block_refuses_commit_reorg_mine W MAX_FUTURE_TRANSACTION_NONCES MAX_FUTURE_TRANSACTION_BLOCKS). Qed.
+Proof. exact (open_block_refuses_commit_reorg_mine W MAX_FUTURE_TRANSACTION_NONCES MAX_FUTURE_TRANSACTION_BLOCKS INDEXER_ADDRESS). Qed.
 Print Assumptions C05_open_block_refuses_commit_reorg_mine.
+
+(* Both or neither of the two data encodings: refused by select_bytes before the engine is
+   reached (C15_select_bytes_both_or_neither proves that function's verdict). *)
+Theorem C05_bad_encodings_rejected : forall g, step g CBadParams = (g, ORejected).
+Proof. reflexivity. Qed.
 
 (* Non-vacuity: an accepted two-transaction block, then a rejected third call. *)
 Example C05_nonvacuous :
